@@ -236,7 +236,8 @@ class CheckInput(Contract):
     parsed      : the body receives the validated object for the designated parameter, every other parameter unchanged;
     transparent : the wrapper returns the body's result / raises the body's exception; the only other exceptions are
                   those of validate (SchemaError possibly re-raised with decorator context, cause = the original).
-    Domain      : calls that python binds to the signature and that pass the designated argument explicitly."""
+    Domain      : calls that python binds to the signature; the designated argument is passed positionally, by keyword, or left
+                  at its default (the default is then the designated input)."""
 
     target = f"{DEC}:check_input"
     split = {"shape": INPUT_SHAPES}
@@ -259,8 +260,13 @@ class CheckInput(Contract):
         kinds = (["none"] if d == 0 else []) + ["int", "str"]
         kind = kinds[p.choose([(k, None) for k in kinds], "getter")]
         getter = {"none": None, "int": d, "str": dname}[kind]
-        passed = choose_call_shape(params, names, must_pass={dname})
+        # the designated argument may be passed positionally, by keyword, or - when it has a default - not at all: the function then
+        # receives the default, which is the designated input ("independent of how the argument is designated ... or passed"; the
+        # property's quantifier lists `defaults` among the signatures)
+        passed = choose_call_shape(params, names, must_pass=set())
         frame = Frame(names, passed)
+        if dname not in frame.values:
+            label("designated_argument", "left_at_its_default")
         return dict(fn=fn, names=names, dname=dname, getter=getter, frame=frame, schema=SchemaVal("schema"), opts=fresh_options())
 
     def call_target(self, I, fn, a):
@@ -278,7 +284,7 @@ class CheckInput(Contract):
         frame, dname = a["frame"], a["dname"]
         out = {"validates_exactly_once": len(v) == 1}
         if len(v) >= 1:
-            out["validates_the_designated_argument"] = v[0].obj is frame.values[dname]
+            out["validates_the_designated_argument"] = v[0].obj is frame.values.get(dname, PF.DEFAULT)
             out["validate_receives_decorator_options"] = options_forwarded(v[0], a["opts"])
         return out
 
@@ -542,7 +548,7 @@ class CheckIO(Contract):
         outs = {"none": [], "schema": [(None, IOSchema("out_schema"))], "pair": [(1, IOSchema("out_schema1"))],
                 "list2": [(0, IOSchema("out_schema0")), (1, IOSchema("out_schema1"))]}[ok]
         out_arg = {"none": None, "schema": outs[0][1] if outs else None, "pair": outs[0] if outs else None, "list2": ListObj(outs)}[ok]
-        passed = choose_call_shape(params, names, must_pass=set(in_names))
+        passed = choose_call_shape(params, names, must_pass=set())  # (a designated input may be left at its default, as for check_input)
         frame = Frame(names, passed)
         return dict(fn=fn, frame=frame, in_schemas=in_schemas, outs=outs, out_arg=out_arg, factory=factory, kind=kind, opts=fresh_options())
 
@@ -563,7 +569,7 @@ class CheckIO(Contract):
             c = sch.calls
             out["each_input_validated_at_most_once_by_its_schema"] = And(out.get("each_input_validated_at_most_once_by_its_schema", True), len(c) <= 1)
             if c:
-                out["validates_the_designated_argument"] = And(out.get("validates_the_designated_argument", True), c[0].obj is frame.values[n])
+                out["validates_the_designated_argument"] = And(out.get("validates_the_designated_argument", True), c[0].obj is frame.values.get(n, PF.DEFAULT))
                 out["validate_receives_decorator_options"] = And(out.get("validate_receives_decorator_options", True), options_forwarded(c[0], a["opts"]))
             if not (len(c) == 1 and c[0].ret is not None):
                 allret = False
